@@ -42,6 +42,10 @@ Proof. exact limit_source_is_model. Qed.
 Theorem C02_send_content_source_is_model : forall (fm : N) (cid props : val) (body : list N) (log : list val), 1 <= fm -> gen_ChannelHandle_send_content ext_st_model (S (Datatypes.length body)) (enc_self fm log) (VBytes body) cid props = (enc_self fm (log ++ VC "header" [cid; VN (N.of_nat (Datatypes.length body)); props] :: map body_item (body_chunks fm body)), VC "Ok" [VC "()" []]).
 Proof. exact send_content_source_is_model. Qed.
 
+(* C02 AS A THEOREM ABOUT THE TRANSLATED CODE: with the limit Channel0Handle::new computes from the negotiated frame_max (0 = no limit, else at least FRAME_MIN_SIZE), the translated send_content hands over the header announcing the body's length and then body frames that are non-empty, fit frame_max including the 8 bytes of frame overhead, are all full except possibly the last and concatenate to exactly the body - and none for an empty body *)
+Theorem C02_send_content_source_frames : forall (frame_max : N) (cid props : val) (body : list N) (log : list val), frame_max = 0 \/ c_frame_min_size <= frame_max -> exists chunks : list bytes, gen_ChannelHandle_send_content ext_st_model (S (Datatypes.length body)) (enc_self (payload_limit frame_max) log) (VBytes body) cid props = (enc_self (payload_limit frame_max) (log ++ VC "header" [cid; VN (N.of_nat (Datatypes.length body)); props] :: map body_item chunks), VC "Ok" [VC "()" []]) /\ concat chunks = body /\ Forall (fun c : list N => 0 < N.of_nat (Datatypes.length c) <= payload_limit frame_max) chunks /\ (c_frame_min_size <= frame_max -> Forall (fun c : list N => N.of_nat (Datatypes.length c) + c_frame_overhead <= frame_max) chunks) /\ (forall (pre : list bytes) (c : bytes), chunks = (pre ++ [c])%list -> Forall (fun x : list N => N.of_nat (Datatypes.length x) = payload_limit frame_max) pre) /\ (body = [] -> chunks = []).
+Proof. exact send_content_source_frames. Qed.
+
 (* non-vacuity: a 10-byte body with frame_max 4096 is one frame; 4089 bytes are two (4088 + 1) *)
 Example C02_example :
   map (fun c => N.of_nat (length c)) (body_chunks (payload_limit 4096) (repeat 7 4089)) = [4088; 1] /\
@@ -58,6 +62,7 @@ Check C02_limit_pos : forall frame_max : N, frame_max = 0 \/ c_frame_min_size <=
 Check C02_publish : forall (frame_max : N) (p : publish), frame_max = 0 \/ c_frame_min_size <= frame_max -> exists bodies : list bytes, publish_frames frame_max p = PMethod (p_exchange p) (p_rk p) (p_mandatory p) (p_immediate p) :: PHeader 60 (N.of_nat (Datatypes.length (p_body p))) (p_props p) :: map PBody bodies /\ concat bodies = p_body p /\ Forall (fun c : list N => c <> []) bodies /\ (p_body p = [] -> bodies = []).
 Check C02_limit_source_is_model : forall frame_max : N, gen_Channel0Handle_new frame_max = RsOk "Channel0Handle" [("frame_max", payload_limit frame_max)].
 Check C02_send_content_source_is_model : forall (fm : N) (cid props : val) (body : list N) (log : list val), 1 <= fm -> gen_ChannelHandle_send_content ext_st_model (S (Datatypes.length body)) (enc_self fm log) (VBytes body) cid props = (enc_self fm (log ++ VC "header" [cid; VN (N.of_nat (Datatypes.length body)); props] :: map body_item (body_chunks fm body)), VC "Ok" [VC "()" []]).
+Check C02_send_content_source_frames : forall (frame_max : N) (cid props : val) (body : list N) (log : list val), frame_max = 0 \/ c_frame_min_size <= frame_max -> exists chunks : list bytes, gen_ChannelHandle_send_content ext_st_model (S (Datatypes.length body)) (enc_self (payload_limit frame_max) log) (VBytes body) cid props = (enc_self (payload_limit frame_max) (log ++ VC "header" [cid; VN (N.of_nat (Datatypes.length body)); props] :: map body_item chunks), VC "Ok" [VC "()" []]) /\ concat chunks = body /\ Forall (fun c : list N => 0 < N.of_nat (Datatypes.length c) <= payload_limit frame_max) chunks /\ (c_frame_min_size <= frame_max -> Forall (fun c : list N => N.of_nat (Datatypes.length c) + c_frame_overhead <= frame_max) chunks) /\ (forall (pre : list bytes) (c : bytes), chunks = (pre ++ [c])%list -> Forall (fun x : list N => N.of_nat (Datatypes.length x) = payload_limit frame_max) pre) /\ (body = [] -> chunks = []).
 
 Print Assumptions C02_concat.
 Print Assumptions C02_sizes.
@@ -69,4 +74,5 @@ Print Assumptions C02_limit_pos.
 Print Assumptions C02_publish.
 Print Assumptions C02_limit_source_is_model.
 Print Assumptions C02_send_content_source_is_model.
+Print Assumptions C02_send_content_source_frames.
 Print Assumptions C02_example.
